@@ -2,7 +2,12 @@ use crate::model::{
     frontier::frontier_model::FrontierModel,
     network::{Edge, EdgeId},
 };
+#[cfg(not(all(kani, feature = "verif-models")))]
 use std::{collections::HashSet, sync::Arc};
+#[cfg(all(kani, feature = "verif-models"))]
+use std::sync::Arc;
+#[cfg(all(kani, feature = "verif-models"))]
+use crate::util::verif_collections::HashSet;
 
 /// A wrapper of the user-generated FrontierModel which prohibits traversals
 /// on selected edges. algorithms can create this wrapper with a set of "cut edges"
